@@ -8,6 +8,8 @@ lines and the executable words of every line must be identical.
 
 from __future__ import annotations
 
+from gscrib import GCodeBuilder, GCodeCore
+
 from harness.session import REJECTIONS, Session
 from harness.wire import LexError
 
@@ -136,8 +138,13 @@ def run_case(ctx, col, case):
     entry = ENTRIES[(case // len(STYLES)) % len(ENTRIES)]
     le = rng.choice(["\n", "\r\n"])
     text, cls = hostile(rng, style)
-    A = Session(comment=style, le=le, interpret=False)
-    B = Session(comment=style, le=le, interpret=False)
+    # the bare GCodeCore has its own comment()/annotate()/move paths: use it for the entry points it offers
+    core_ok = entry in ("comment", "comment+args", "annotate", "move", "rapid", "move_absolute", "rapid_absolute")
+    cls = GCodeCore if (core_ok and rng.random() < 0.25) else GCodeBuilder
+    if cls is GCodeCore:
+        col.count("core_only_pairs")
+    A = Session(comment=style, le=le, interpret=False, builder_cls=cls)
+    B = Session(comment=style, le=le, interpret=False, builder_cls=cls)
     innocuous = "ok" if text.strip() else text
     res = []
     for s, t in ((A, text), (B, innocuous)):
